@@ -414,3 +414,19 @@ package gorm
 //@   in gorm.(*DB).CreateInBatches
 //@   min-sites 1
 //@   assert single-batch-or-no-default-transaction: tx.Config.SkipDefaultTransaction || reflectLen <= batchSize [C05]
+
+//@ # ---------- C01: every bound value is appended first and gets its placeholder right after ----------
+//@ ghost PH
+//@ event invoke Dialector.BindVarTo
+//@   requires value-was-just-appended: len(arg2.Vars) >= 1 && arg2.Vars[len(arg2.Vars) - 1] == arg3 [C01]
+//@   do PH = PH + 1
+//@ site placeholder-goes-to-the-callers-writer
+//@   match invoke Dialector.BindVarTo
+//@   in gorm.(*Statement).AddVar
+//@   min-sites 5
+//@   assert same-writer-for-own-statement: arg1 == stmt ==> arg0 == writer [C01]
+//@ site subquery-continues-parent-numbering
+//@   match call gorm.(*processor).Execute
+//@   in gorm.(*Statement).AddVar
+//@   min-sites 1
+//@   assert starts-from-parents-values: len(arg1.Statement.Vars) >= len(stmt.Vars) && forall(k, 0, len(stmt.Vars), arg1.Statement.Vars[k] == stmt.Vars[k]) [C01]
